@@ -35,8 +35,8 @@ ASSUMPTIONS = [
 BACKENDS = ['dict', 'dict-shelve', 'disk', 'redis', 'cloud']
 
 # RedisStorage(prefix=...): every redis run takes the next one of these.  KEYS takes a GLOB:
-# '*' and '?' in a prefix still match themselves; a '[' does not (see PREFIX_PROBE).
-PREFIXES = ['slimta:', '', 'slimta_', 'mail.example.com/queue/', 'site:a-', 'a:b:c:', 'x.y|z(1)+$^', 'q*r?:', 'tenant 7:queue:']
+# glob metacharacters in a prefix are meant literally (D39: load() escapes them for KEYS)
+PREFIXES = ['slimta:', '', 'slimta_', 'mail.example.com/queue/', 'site:a-', 'a:b:c:', 'x.y|z(1)+$^', 'q*r?:', 'tenant 7:queue:', 'k[1]:', 'back\\slash:']
 PREFIX_PROBE = 'k[1]:'
 
 
@@ -291,6 +291,7 @@ class Adapter(object):
                 sf.DiskHarness(self.hub, codec=self.cfg.get('codec', True), chunk=self.cfg.get('chunk'), gate=gates))
             self.st = self.disk.storage()
             # handles=2: two simultaneously live DiskStorage objects on the same directories
+            self.disk.write_rule = self.cfg.get('wrule')
             self.handles = [self.st] + [self.disk.storage() for _ in range(self.cfg.get('handles', 1) - 1)]
             self.nops = 0
         else:
@@ -877,7 +878,7 @@ def stream_interleaved(ctx, n):
         rc = tuple(RCPTS[:3])
         upd = [('incr', 10, (3, 4)), ('deliv', 10, (0, 2) if variant % 2 else (1,), (5, 6)), ('setts', 10, 777, (7, 8))]
         upd = upd[variant % 3:] + upd[:variant % 3]
-        t0 = [('write', (SENDERS[variant], rc, CONTENTS[variant]), 50 + variant, (10,), (1, 2))] + upd + [('get', 10), ('incr', 10, (9, 10)), ('get', 10)]
+        t0 = [('write', (SENDERS[variant], rc, CONTENTS[variant]), 50 + variant, (10,), (1, 2))] + upd + [('get', 10), ('get', 10), ('incr', 10, (9, 10)), ('get', 10)]
         threads = [t0, thread_ops(rng, 1, 100), [('load', 8000), ('get', 10)]]
         plan = [('ops', 0, 1), 2, 2, ('ops', 0, 4), 2, 2, 2, 2]
         sch = plan + [rng.randrange(3) for _ in range(100)] + [j for j in range(3) for _ in range(250)]
@@ -1016,8 +1017,9 @@ def probe_glob_prefix(ctx):
         ad.close()
     ctx.count('probe:glob-prefix:' + ('same' if got == want else 'differs'))
     if got != want:
-        ctx.note('not judged (reported): RedisStorage(prefix=%r): load() returns %r where the reference returns %r - '
-                 'the prefix is passed to KEYS unescaped and KEYS takes a glob' % (PREFIX_PROBE, got[1], want[1]))
+        fail(ctx, 'c15:redis-load-prefix-taken-as-glob', dict(ops=ops, prefix=PREFIX_PROBE),
+             'RedisStorage(prefix=%r): load() returns %r where the reference returns %r - the prefix reaches KEYS unescaped and KEYS takes a glob'
+             % (PREFIX_PROBE, got[1], want[1]))
 
 
 # ---------------------------------- redis: real client, many operations in flight
